@@ -413,6 +413,13 @@ def check_dwann(case):
     k = np.array(case["k"], dtype=float)
     G = np.array(case["G"], dtype=int)
     Linv = np.linalg.inv(L)
+    # precondition: the operations reported by spglib (found with its tolerance 1e-5) are exact symmetries of the
+    # lattice that was generated, i.e. orthogonal in Cartesian coordinates to rounding.  A lattice that is symmetric
+    # only within that tolerance (e.g. a monoclinic angle 2e-6 rad away from 90 degrees) is a tie, not a violation.
+    for symop in sg.symmetries:
+        Rc_ = L.T @ np.array(symop.rotation, dtype=float) @ Linv.T
+        if maxdiff(Rc_ @ Rc_.T, np.eye(3)) > 1e-10:
+            raise Inconclusive("lattice has an operation of the detected group only within spglib's tolerance (tie)")
     rotator = OrbitalRotator()
     labels = [f"lat={case['lat']['kind']}", "spinor" if sg.spinor else "scalar",
               "nsym<=4" if nsym <= 4 else ("nsym<=16" if nsym <= 16 else "nsym>16"),
